@@ -18,7 +18,7 @@ CHECKS = {
    ref="4/C13"),
  "C07": dict(
    technique="static analysis: path counting of best_move emissions on the MIR CFG, who-may-call over the resolved call graph, context-sensitive panic-site inventory of the search thread with constant folding / mask-shift bounds",
-   text="Decides two clauses for every input and schedule at once: exactly one UciTx::best_move call on every returning path of Search::go (and nobody else calls it), and no unreviewed bounds-check / unwrap / index / explicit panic / division site reachable in the search thread (each site folds away, is bounded, or carries a reviewed guard argument, some with machine-checked preconditions). R5: the transposition table lives no longer than one go with a searchmoves restriction can see. R6 (shared with C09.R1): every search exit has taken back every move it made, so the board a later go (sent without a new position) searches is the position last set. Does not decide non-nullness of the move nor any timing behaviour.",
+   text="Decides two clauses for every input and schedule at once: exactly one UciTx::best_move call on every returning path of Search::go (and nobody else calls it), and no unreviewed bounds-check / unwrap / index / explicit panic / division site reachable in the search thread (each site folds away, is bounded, or carries a reviewed guard argument, some with machine-checked preconditions). R5: the transposition table lives no longer than one go with a searchmoves restriction can see. R6 (shared with C09.R1): every search exit has taken back every move it made, so the board a later go (sent without a new position) searches is the position last set. R7: a completed, non-aborted iteration is never discarded while no earlier result exists (zero / near-zero budgets). R8: search_negamax leaves without a move before searching a child only through reviewed exits when it is the root. R9: the command thread reaches the search only through the ordered message channel (no shared mutable state in engine_core types; stop is a message the running search honours). Does not decide timing behaviour beyond these structural conditions.",
    note="Trusted: rustc MIR and callee resolution, the extractor, the reviewed guard arguments in tables/panic_sites.json, the list of extern APIs that panic by contract (tables/panic_api.json); extern callees not listed are assumed total (printed in the evidence). Arithmetic-overflow asserts of the search are inventoried but not judged.",
    ref="4/C07"),
  "C12": dict(
@@ -33,7 +33,7 @@ CHECKS = {
    ref="4/C15"),
  "C03": dict(
    technique="static analysis: Move layout derived from getter/setter MIR, bit-level may-analysis with integer widths, make/unmake write-set and flag-mirror comparison, all-paths balance of probes",
-   text="Decides, for every clock value and move at once, structural necessary conditions of make/unmake being inverse: every undo field's setter can reach all bits of the field (abstract interpretation of the written expression), make and unmake write the same board fields, each castling-right flag is cleared/restored under the same predicate for the same player, castling is undone with swapped squares, saved = restored fields, probes are balanced on all paths; the castling-right bookkeeping is compared as a full truth table (16 predicate assignments) and - R6 - the placement change of unmake is the exact symbolic inverse of make's for every move kind (normal, promotion, e.p. both colours, four castlings), computed from all paths of both functions. Together these decide 'make followed by unmake restores placement, rights, e.p. square and clocks' at the level of the expressions the code writes; R7: the side to move and the full-move number are evaluated path by path for turn in {0,1}: make flips the side and adds the mover's colour whatever else holds (a saturating or conditional update is reported with the condition it branches on), and unmake run on make's result restores both. What remains undecided is that the Move fields hold what generation intended (C02).",
+   text="Decides, for every clock value and move at once, structural necessary conditions of make/unmake being inverse: every undo field's setter can reach all bits of the field (abstract interpretation of the written expression), make and unmake write the same board fields, each castling-right flag is cleared/restored under the same predicate for the same player, castling is undone with swapped squares, saved = restored fields, probes are balanced on all paths; the castling-right bookkeeping is compared as a full truth table (16 predicate assignments) and - R6 - the placement change of unmake is the exact symbolic inverse of make's for every move kind (normal, promotion, e.p. both colours, four castlings), computed from all paths of both functions. Together these decide 'make followed by unmake restores placement, rights, e.p. square and clocks' at the level of the expressions the code writes; R7: the side to move and the full-move number are evaluated path by path for turn in {0,1}: make flips the side and adds the mover's colour whatever else holds (a saturating or conditional update is reported with the condition it branches on), and unmake run on make's result restores both; R8 (= C02.R7): every producer of moves saves what unmake restores. What remains undecided is that the Move fields hold what generation intended (C02).",
    note="Trusted: rustc MIR, the extractor, the path evaluator and bit-mask transfer functions (about 150 lines).",
    ref="4/C03"),
  "C10": dict(
@@ -43,7 +43,7 @@ CHECKS = {
    ref="4/C10"),
  "C14": dict(
    technique="static analysis: backward slice (data + control dependence) on MIR from the '#' constant to the in-check test; reader/writer letter-table agreement",
-   text="Decides that the SAN writer's '#' suffix depends on an in-check test evaluated on the position after the move (so stalemate cannot be written as mate), that '+' depends on it too, and structural agreement of reader and writer. Does not decide minimal disambiguation (known Nd2/Nd2 defect of the property statement: not reachable statically, not claimed).",
+   text="Decides that the SAN writer's '#' suffix depends on an in-check test evaluated on the position after the move (so stalemate cannot be written as mate), that '+' depends on it too, and structural agreement of reader and writer. R4: disambiguation candidates are legal moves. R5: the writer's disambiguation decision table (extracted from all paths, predicates classified by what their closures compare) equals the SAN rule: nothing / file / rank / both.",
    note="Trusted: rustc MIR, the extractor, the slicer (over-approximating; used only for must-depend).",
    ref="4/C14"),
  "C19": dict(
@@ -65,7 +65,7 @@ CHECKS = {
    ref="4/C11"),
  "C02": dict(
    technique="static analysis: Move layout derived from getter/setter MIR, bit-level may-analysis, reader-set comparison, exhaustive path enumeration of the move constructor with a board-geometry oracle for the castling-right squares",
-   text="Decides structural necessary conditions of 'make produces the successor' for every position and move: field layout well-formed and disjoint, setters reach their fields, every recorded effect has its reader in make/unmake/zobrist_xor, make applies clock/e.p. correctly and, evaluated path by path for both colours, flips the side and adds the mover's colour to the move number unconditionally, the clock-reset flag is set exactly for pawn moves and captures (all 10^3 paths of make_move enumerated), and each castling-right-lost flag is set exactly for the rook/king home squares of the right colour (geometry oracle, both colours), never skipped on a path that emits the move; R6: for every move kind the placement change make performs (all 256 paths) is exactly the one the rules define (geometry oracle for castling rook squares and the e.p. victim square). Does not decide that the generator fills the move fields with the right pieces/squares for every position (that is C01's domain).",
+   text="Decides structural necessary conditions of 'make produces the successor' for every position and move: field layout well-formed and disjoint, setters reach their fields, every recorded effect has its reader in make/unmake/zobrist_xor, make applies clock/e.p. correctly and, evaluated path by path for both colours, flips the side and adds the mover's colour to the move number unconditionally, the clock-reset flag is set exactly for pawn moves and captures (all 10^3 paths of make_move enumerated), and each castling-right-lost flag is set exactly for the rook/king home squares of the right colour (geometry oracle, both colours), never skipped on a path that emits the move; R6: for every move kind the placement change make performs (all 256 paths) is exactly the one the rules define (geometry oracle for castling rook squares and the e.p. victim square); R7: every function that emits a move has recorded piece, squares, side and both undo fields on every path to the push, and each zero-defaulting field on every path if on any. Does not decide that the generator fills the move fields with the right pieces/squares for every position (that is C01's domain).",
    note="Trusted: rustc MIR, the extractor, path evaluator, geometry oracle; the reader table (Appendix A.1) is keyed by getter names.",
    ref="4/C02"),
  "C06": dict(
@@ -75,12 +75,12 @@ CHECKS = {
    ref="4/C06"),
  "C05": dict(
    technique="static analysis: path enumeration of the loop-free check test on MIR, table classification from the evaluated constants, operand-level inspection of the colour arguments, path classification of the evaluator's terminal branch",
-   text="Decides the completeness and pairing of the reverse attack lookup (every attacker kind, right table, right piece set, attacking player's sets, king square and full occupancy; the pawn table of the defended colour) path by path: every path answering 'not attacked' has consulted all five attacker kinds or skipped one only under a test that its piece set is empty, every path answering 'attacked' is backed by a positive lookup, the colour arguments of is_valid / is_current_in_check / is_in_check / _is_in_check_by_bits, and that mate scores need check and no legal move while other move-less positions are draws. Does not decide exactness over positions (relies on C04 for the tables).",
+   text="Decides the completeness and pairing of the reverse attack lookup (every attacker kind, right table, right piece set, attacking player's sets, king square and full occupancy; the pawn table of the defended colour) path by path: every path answering 'not attacked' has consulted all five attacker kinds or skipped one only under a test that its piece set is empty, every path answering 'attacked' is backed by a positive lookup, the colour arguments of is_valid / is_current_in_check / is_in_check / _is_in_check_by_bits, that neither _is_in_check_by_bits nor the check test answers without the lookups, and that mate scores are returned exactly when the side to move is in check and has no legal move (also on paths that never looked at one of the two facts: no draw rule takes precedence), other move-less positions being draws. Does not decide exactness over positions (relies on C04 for the tables).",
    note="Trusted: rustc MIR + const evaluation, the extractor, the path evaluator, the geometry oracle for classifying tables. Assumes both kings exist.",
    ref="4/C05"),
  "C16": dict(
    technique="static analysis: who-may-call over resolved callees for stdout, decoded format_args templates and string constants at every transmitter call site, control-dependence comparison of the PV/bestmove assignments",
-   text="Decides that only the binary's print function writes stdout (as the transmitter's consumer, plus one banner call), that every line kind the console transmitter can emit starts with a UCI engine-to-GUI keyword with the right message keyword per trait method, that info keys are UCI keys, unique, `string` last, scores cp/mate with lowerbound/upperbound, 0000 only for None, that bestmove, reported PV and stored PV are assigned under the same condition, that every info line reads `nodes` from one counter restarted by every go, and - R5 - that the origin of the reported `time` is written only where a search starts (go / best_move before the iteration loop), never by anything reachable while the search runs. These are necessary conditions of monotone nodes/time; monotone depth and PV legality are not decided.",
+   text="Decides that only the binary's print function writes stdout (as the transmitter's consumer, plus one banner call), that every line kind the console transmitter can emit starts with a UCI engine-to-GUI keyword with the right message keyword per trait method, that info keys are UCI keys, unique, `string` last, scores cp/mate with lowerbound/upperbound, 0000 only for None, that bestmove, reported PV and stored PV are assigned under the same condition, that every info line reads `nodes` from one counter restarted by every go, and - R5 - that the origin of the reported `time` is written only where a search starts (go / best_move before the iteration loop), never by anything reachable while the search runs; R6: the ponder move is read from the stored PV only when this search produced an answer. These are necessary conditions of monotone nodes/time; monotone depth and PV legality are not decided.",
    note="Trusted: rustc MIR, the extractor's constant decoding, the template decoder for this nightly's format_args lowering (undecodable templates fail closed as anchor lost).",
    ref="4/C16"),
  "C18": dict(
@@ -90,7 +90,7 @@ CHECKS = {
    ref="4/C18"),
  "C01": dict(
    technique="static analysis: exhaustive path enumeration of castle_moves and make_move on MIR with a board-geometry oracle; sibling-call comparison of the two generators; arm-wise mirror comparison of colour branches",
-   text="Decides structural necessary conditions of exact move generation: castling is emitted under exactly the four conditions of the rules with the geometrically right squares and masks for both colours and wings; the capture/promotion generator is the full generator minus castling with the filter on and every piece kind paired with its table; promotions to exactly Q,R,B,N; a move is dropped iff quiet and filtered; black arms mirror white arms in shift direction, masks, tables and players; R6: generate_legal_moves puts every pseudo-legal move through is_move_legal (every filter/retain closure on every accepting path, every push of a hand-written loop), is_move_legal is make / is_valid / unmake, is_any_move_legal answers true only under a successful probe; the castling-right bookkeeping castle_moves relies on is checked with C02.R4/R5. R6 is a sufficient condition: a pin-aware generator that skips the probe soundly would have to be re-reviewed. Does not decide that the generated set equals the FIDE set for every position (pins, e.p. legality are the legality filter's job: C03/C05).",
+   text="Decides structural necessary conditions of exact move generation: castling is emitted under exactly the four conditions of the rules with the geometrically right squares and masks for both colours and wings; the capture/promotion generator is the full generator minus castling with the filter on and every piece kind paired with its table; promotions to exactly Q,R,B,N; a move is dropped iff quiet and filtered; black arms mirror white arms in shift direction, masks, tables and players; R6: generate_legal_moves puts every pseudo-legal move through is_move_legal (every filter/retain closure on every accepting path, every push of a hand-written loop), is_move_legal is make / is_valid / unmake, is_any_move_legal answers true only under a successful probe; the castling-right bookkeeping castle_moves relies on is checked with C02.R4/R5. R6 is a sufficient condition: a pin-aware generator that skips the probe soundly would have to be re-reviewed. R7: a rank mask that is not its own vertical mirror image is used in the generators only inside a branch on the side to move whose other arm uses the mirrored rank, or together with its mirror image. Does not decide that the generated set equals the FIDE set for every position (pins, e.p. legality are the legality filter's job: C03/C05).",
    note="Trusted: rustc MIR + const evaluation, the extractor, path evaluator, geometry oracle. The mirror rule judges only pairs it recognises (shifts by 8, u64 masks, +-8, players, per-square tables); other pairs are counted as not judged in the evidence.",
    ref="4/C01"),
  "C08": dict(
